@@ -1,7 +1,27 @@
 import CspuzModel.Proofs.C04L1
 import CspuzModel.Proofs.C04L2
 import CspuzModel.Proofs.C04Prim
-/-! Assembly of the C04 theorems from the layers (see Properties/C04.lean for the statements). -/
+/-! Assembly of the C04 theorems from the layers (statements: Properties/C04.lean). -/
 namespace Cspuz.Proofs.C04
 open Cspuz Cspuz.Spec
+open Cspuz.Proofs.C04L1 Cspuz.Proofs.C04L2
+
+theorem aux_exact (g : Graph) (ia : List Expr) (base : Nat) (acyclic : Bool) (p : Prog) (σ : Asg)
+    (hwf : g.wf = true) (hlf : acyclic = true → LoopFree g) (hlen : ia.length = g.n)
+    (hia : BoolArgs base ia) (hp : activeVerticesConnected g ia base acyclic false = .ok p) :
+    (Realizable base p σ ↔
+      if acyclic then ActiveTreeOrEmpty g (truthAt σ ia) else ActiveConnected g (truthAt σ ia)) := by
+  rw [avc_realizable_iff_cert g ia base acyclic p σ hwf hlen hia hp]
+  cases acyclic with
+  | false => simpa using avc_cert_iff_connected g (truthAt σ ia) hwf
+  | true => simpa using avc_cert_iff_tree g (truthAt σ ia) hwf (hlf rfl)
+
+theorem dispatch :
+    (∀ g ia base, activeVerticesConnected g ia base true true = activeVerticesConnected g ia base true false) ∧
+    (∀ (g : Graph) (ia : List Expr) (base : Nat) (acyclic prim : Bool),
+      0 < g.n → g.wf = true → ia.length = g.n → BoolArgs base ia →
+      ∃ p, activeVerticesConnected g ia base acyclic prim = .ok p) :=
+  ⟨avc_prim_acyclic, fun g ia base acyclic prim h1 h2 h3 h4 => avc_total g ia base acyclic prim h1 h2 h3 h4⟩
+
 end Cspuz.Proofs.C04
+
